@@ -9,18 +9,27 @@ from . import driver
 from .core import g_Z, g_bool, g_list
 from .snapgen import g_flags, render_atom
 
-HDR = "from inline_snapshot import snapshot\n\n\n"
+HDR = "from inline_snapshot import snapshot, Is\n\n\n"
 
 
-def gen_tree(rng, depth=0):
+UNM = [0]          # probability of a user-controlled leaf Is(Vk); set by the caller
+
+
+def gen_tree(rng, depth=0, ids=None):
     if depth >= 3 or rng.random() < 0.35 + 0.15 * depth:
+        if UNM[0] and rng.random() < UNM[0]:
+            ids = ids if ids is not None else []
+            ids.append(len(ids))
+            return ("unm", ids[-1], rng.randint(0, 6))
         return ("leaf", rng.randint(0, 6), rng.random() < 0.55)
-    return (rng.choice(["list", "tuple"]), [gen_tree(rng, depth + 1) for _ in range(rng.choice([0, 1, 2, 2, 3, 4]))])
+    return (rng.choice(["list", "tuple"]), [gen_tree(rng, depth + 1, ids) for _ in range(rng.choice([0, 1, 2, 2, 3, 4]))])
 
 
 def tree_value(t):
     if t[0] == "leaf":
         return t[1]
+    if t[0] == "unm":
+        return t[2]
     vs = [tree_value(x) for x in t[1]]
     return vs if t[0] == "list" else tuple(vs)
 
@@ -54,9 +63,19 @@ def mutate(rng, v, depth=0):
     return items if isinstance(v, list) else tuple(items)
 
 
+def unms(t):
+    if t[0] == "unm":
+        return [(t[1], t[2])]
+    if t[0] == "leaf":
+        return []
+    return [u for x in t[1] for u in unms(x)]
+
+
 def render_tree(t):
     if t[0] == "leaf":
         return render_atom(t[1], t[2])
+    if t[0] == "unm":
+        return f"Is(V{t[1]})"
     body = ", ".join(render_tree(x) for x in t[1])
     if t[0] == "list":
         return "[" + body + "]"
@@ -64,7 +83,8 @@ def render_tree(t):
 
 
 def gen_case(rng):
-    t = (rng.choice(["list", "tuple"]), [gen_tree(rng, 1) for _ in range(rng.choice([1, 2, 3, 4]))])
+    ids = []
+    t = (rng.choice(["list", "tuple"]), [gen_tree(rng, 1, ids) for _ in range(rng.choice([1, 2, 3, 4]))])
     old = tree_value(t)
     new = old if rng.random() < 0.1 else mutate(rng, old)
     flags = tuple(c for c in ("fix", "update") if rng.random() < 0.6)
@@ -80,6 +100,8 @@ def read_back(seg):
         if isinstance(n, ast.Tuple):
             return ("tuple", [conv(e) for e in n.elts])
         s = ast.get_source_segment(seg, n)
+        if s.startswith("Is(V") and s.endswith(")"):
+            return ("unm", int(s[4:-1]))
         v = eval(s)
         if isinstance(v, bool) or not isinstance(v, int):
             raise ValueError(f"leaf outside the model: {s}")
@@ -88,7 +110,8 @@ def read_back(seg):
 
 
 def run_case(c):
-    src = HDR + f"def test_a():\n    assert {c['new']!r} == snapshot({render_tree(c['tree'])})\n"
+    vs = "".join(f"V{i} = {v}\n" for i, v in unms(c["tree"]))
+    src = HDR + vs + f"\n\ndef test_a():\n    assert {c['new']!r} == snapshot({render_tree(c['tree'])})\n"
     r = driver.run_inproc({"test_a.py": src}, c["flags"], block_black=True)
     out = {"session_exc": r["session_exc"], "source": src, "after": r["files"]["test_a.py"].decode()}
     try:
@@ -98,7 +121,9 @@ def run_case(c):
         seg = ast.get_source_segment(out["after"], call.args[0])
         out["arg"] = seg
         out["observed"] = read_back(seg)
-        out["value"] = eval(seg)
+        ns = {"Is": lambda x: x}
+        ns.update({f"V{i}": v for i, v in unms(c["tree"])})
+        out["value"] = eval(seg, ns)
     except Exception as e:  # noqa
         out["error"] = f"{type(e).__name__}: {e}"
     return out
@@ -107,6 +132,8 @@ def run_case(c):
 def g_tree(t):
     if t[0] == "leaf":
         return f"(TLeaf {g_Z(t[1])} {g_bool(t[2])})"
+    if t[0] == "unm":
+        return f"(TUnm {t[1]}%nat {g_Z(t[2])})"
     return f"(TSeq {'KList' if t[0] == 'list' else 'KTuple'} {g_list(t[1], g_tree)})"
 
 
@@ -119,6 +146,8 @@ def g_val(v):
 def g_otree(t):
     if t[0] == "leaf":
         return f"(OLeaf {g_Z(t[1])} {g_bool(t[2])})"
+    if t[0] == "unm":
+        return f"(OUnm {t[1]}%nat)"
     return f"(OSeq {'KList' if t[0] == 'list' else 'KTuple'} {g_list(t[1], g_otree)})"
 
 
@@ -126,9 +155,28 @@ def g_case(c, o):
     return f"({g_flags(c['flags'])}, {g_tree(c['tree'])}, {g_val(c['new'])}, {g_otree(o['observed'])})"
 
 
+def _unm_list(t):
+    if t[0] == "unm":
+        return [t]
+    if t[0] == "leaf":
+        return []
+    return [u for x in t[1] for u in _unm_list(x)]
+
+
 def oracle(c, o):
     """the statements of C02 / C11 on this case, without the model"""
     old = tree_value(c["tree"])
+    us = unms(c["tree"])
+    if us:
+        # C10: the user-controlled parts that remain keep their text and order; without fix none disappears
+        got = [u[1] for u in _unm_list(o["observed"])]
+        want = [i for i, _ in us]
+        it = iter(want)
+        if not all(g in it for g in got):
+            return f"user-controlled parts after the run {got} are not a subsequence of the ones before {want}"
+        if "fix" not in c["flags"] and got != want:
+            return f"fix is not approved but user-controlled parts disappeared: {want} -> {got}"
+        return None
     if "fix" in c["flags"]:
         if o["value"] != c["new"] or type(o["value"]) is not type(c["new"]):
             return f"after fix the snapshot holds {o['value']!r}, observed was {c['new']!r}"
